@@ -66,7 +66,7 @@ def gen_cases(rng, tier):
                 else:
                     fr.append([fw[a][k] + rng.randint(-40, 40) for k in range(3)])
             coords.append(fr)
-        cases.append({'flip': rng.random() < 0.5, 'site_scale': rng.choice([1.0, 1.0, 0.97, 1.04]), 'm': m, 'rot': rng.random() < 0.3, 'rseed': rng.randrange(10**6), 'species': species, 'sites8': [list(p) for p in pts],
+        cases.append({'frac': rng.choice([1.0, 0.5, 0.3, 0.3]), 'flip': rng.random() < 0.5, 'site_scale': rng.choice([1.0, 1.0, 0.97, 1.04]), 'm': m, 'rot': rng.random() < 0.3, 'rseed': rng.randrange(10**6), 'species': species, 'sites8': [list(p) for p in pts],
                       'labels': labels, 'coords': coords, 'max_dist': rng.choice([2.0, 3.5, 5.0]), 'res': rng.choice([0.5, 0.25, 0.7]),
                       'radius': rng.choice([0.5, 0.8])})
     return cases
@@ -84,7 +84,8 @@ def impl(case):
     slat = lat if case.get('site_scale', 1.0) == 1.0 else Lattice(np.array(lat.matrix) * case['site_scale'])
     sites = Structure(lattice=slat, species=['Li'] * len(case['sites8']), coords=np.array(case['sites8'], dtype=float) / 8, labels=case['labels'])
     try:
-        tr = traj.transitions_between_sites(sites, 'Li', site_radius=case['radius'])
+        # the inner fraction does not enter the state names (they are built from the full-radius states)
+        tr = traj.transitions_between_sites(sites, 'Li', site_radius=case['radius'], site_inner_fraction=case.get('frac', 1.0))
     except ValueError as e:
         if 'at least one array' in str(e):
             return {'no_events': True}
